@@ -97,7 +97,7 @@ impl Property for C13 {
     fn rule(&self) -> String {
         "(A) exhaustive synonym × position table: each of the advertised spellings of the 39 feature / node / suprasegmental names (transcribed table, ~180 spellings) in each of 12 syntactic positions of a rule that take a matrix (input, output, context, exception, IPA / group / % / structure / variable / output-IPA parameter, set member, optional member) and 5 positions in romaniser and deromaniser lines, on 6 fixed words: must behave like the first spelling of its group. \
          (B) generated rules (full grammar) printed in the canonical style and in each alternative style that changes the text — `=>`, `->`, `//` for `|` (with and without a preceding context), `∅` for `*`, `..`, `…`, `⟨ ⟩`, spaces inside matrices, a trailing `;;` comment, Latin for Greek alpha letters, renumbered variables — on the same generated word. \
-         (C) generated words respelled: `'` `,` `:` `;`, doubled segment for the length mark, `^` for either tie, and each of the 20 input alias letters, under a generated rule. \
+         (C) generated words respelled: `'` `,` `:` `;`, doubled segment for the length mark, `^` for either tie, and each of the 20 input alias letters, under a generated rule; plus, exhaustively, every base grapheme with a tie or an aliased character respelled with `^`, with the alias letters and with both together, at the start, at the end and inside a word. \
          Oracle: both spellings give Ok with equal output strings, or Err of the same variant (positions differ with the spelling). Non-trivial: distinct (construct, position/style, spelling) triples where the call returns Ok and the rule changes the word. Quick: table + 2M random; thorough: table + 20M.".into()
     }
     fn explore(&self, ctx: &mut Ctx) {
@@ -109,6 +109,20 @@ impl Property for C13 {
                 if ["root", "manner", "laryngeal"].contains(&group[0]) { continue }
                 run_case(self, ctx, json!({"kind": "alias-synonym", "position": pname, "canonical": tpl.replace("{M}", &arg(group[0], group[0])), "respelled": tpl.replace("{M}", &arg(syn, group[0])), "derom": derom, "words": if *derom { WORDS_DEROM } else { WORDS }, "spelling": syn})); }
         } }
+        // every base grapheme that contains a tie or a character with an input alias letter, respelled with `^`, with the alias letters, and with both at once (`t͡ʃ` = `t^ʃ` = `t͡S` = `t^S`)
+        for ps in pool().bases.iter() {
+            let g = &ps.text;
+            let caret = g.replace(['\u{0361}', '\u{035C}'], "^");
+            let alias: String = g.chars().map(|c| INPUT_ALIASES.iter().find(|(i, _)| *i == c).map(|(_, a)| *a).unwrap_or(c)).collect();
+            let both: String = caret.chars().map(|c| INPUT_ALIASES.iter().find(|(i, _)| *i == c).map(|(_, a)| *a).unwrap_or(c)).collect();
+            for (resp, how) in [(caret, "^ for a tie (single grapheme)"), (alias, "input alias letter (single grapheme)"), (both, "^ and input alias letter together (single grapheme)")] {
+                if resp == *g { continue }
+                for (pre, post) in [("", "a"), ("a", ""), ("a.", "a")] {
+                    idx += 1; if idx % ctx.nshards != ctx.shard { continue }
+                    run_case(self, ctx, json!({"kind": "word", "style": how, "rule": "a > e", "canonical_word": format!("{pre}{g}{post}"), "respelled_word": format!("{pre}{resp}{post}")}));
+                }
+            }
+        }
         let n = ctx.tier.pick(2_000_000, 20_000_000);
         run_tape_batches(self, ctx, "styles", n, 500, &|t| {
             let wp = if t.chance(1, 3) { WordProfile::RICH } else { WordProfile::PLAIN };
